@@ -316,6 +316,12 @@ def run(ctx):
         ok = len(ws) == 1 and bool(A.calls_in(ws[0][2][1], lambda n: n.endswith("::to_be_bytes"))) and any(A.peel(x) == ("param", 2) for x in A.walk(ws[0][2][1]))
         ctx.check(ok, "C04.2", "primitive:" + nm, "write_octets(&value.to_be_bytes())", "%s is not big-endian" % nm, pf.loc())
 
+    # the decoder rejects the fixed-layout part only when a read runs out ("from 12 bytes": a bare header decodes) - C03.6
+    from ..core import RuleAlias
+    if not isinstance(ctx, RuleAlias):
+        from . import C03
+        C03.run(RuleAlias(ctx, {"C03.6": "C04.2"}))
+
     # ---------------------------------------------------------------- C04.3
     for name, val in codec.RFC_MASKS.items():
         got = A.mir.const_val(prog.const(T + name))
